@@ -22,7 +22,7 @@ RowsSeq(T) == [i \in 1..N |-> T[i]]
 HiFee == MaxOf(FeeLevels)
 
 \* ---- tables ---------------------------------------------------------------------------------
-VarRows == CASE VarMode = "full"  -> {r \in Row : r.acct <= 1}
+VarRows == CASE VarMode = "full"  -> {r \in Row : r.acct <= 1 /\ r.fee \in {0, BaseFee, HiFee}}
              [] VarMode = "small" -> {r \in Row : r.acct <= 1 /\ r.fee \in {0, BaseFee, HiFee} /\ (~r.home => (r.perf /\ ~r.mev))}
              [] OTHER             -> Row
 AbsentRow == [home |-> FALSE, acct |-> 0, mev |-> FALSE, fee |-> 0, perf |-> FALSE]
@@ -84,7 +84,7 @@ PutXQ(kind, s, a, stage, proc, g) ==
   IN q3
 GPutX(A) == \E k \in Kinds : \E s \in (IF k = "slc" THEN Senders ELSE {0}) :
             \E a \in A, stage \in GenStage, proc \in GenProc, g \in Gases :
-  /\ ((stage \notin {"sub", "elected"} \/ Family = "mix") => g = MinOf(Gases))
+  /\ ((stage \notin {"sub", "elected"} \/ Family = "mix" \/ GateMsgs > 2) => g = MinOf(Gases))
   /\ queue' = PutXQ(k, s, a, stage, proc, g) /\ nextId' = nextId + 1 /\ res' = "put"
   /\ UNCHANGED <<tabs, nrows>>
   /\ H("PutX", [kind |-> k, s |-> s, a |-> a, stage |-> stage, proc |-> proc, g |-> g, n |-> EstN])
